@@ -7,6 +7,8 @@ every phase of `parse_number` that returns with the cursor at `i ≤ n` returns 
 buffer: bytes at positions `≥ i` are only inspected to decide to stop, and the end of the buffer leads to the same
 decision.
 -/
+set_option linter.unusedSectionVars false
+set_option linter.unusedSimpArgs false
 namespace LexVerif.Proof.C11
 open LexVerif LexVerif.Model LexVerif.Spec
 open LexVerif.Props.C12 (Bytes.Valid peek_noformat stepUnchecked_release)
@@ -301,6 +303,152 @@ theorem parse8Digits_trunc (k : Comp) (m : Nat) : TruncOK (fun b => parse8Digits
       obtain ⟨rfl, rfl⟩ := h
       refine ⟨rfl, Nat.le_refl _, hv, fun n _ => ?_⟩
       simp only [parse8Digits, hcomp, hcm, if_false, pure, Except.pure, Bool.false_eq_true]
+
+omit hf hd in
+theorem takeDrop_trunc (l : List Nat) (n i j : Nat) (h : i + j ≤ n) :
+    ((l.take n).drop i).take j = (l.drop i).take j := by
+  rw [List.drop_take, List.take_take]
+  congr 1
+  omega
+
+/-- `integer_digits` slice: inside the truncated buffer it is the same slice -/
+theorem sliceTo_trunc (b : Bytes) (j n : Nat) (tag : String) (r : List Nat) (h : sliceTo c b j tag = .ok r)
+    (hn : b.index + j ≤ n) : sliceTo c (trunc n b) j tag = .ok r := by
+  unfold sliceTo at h ⊢
+  by_cases hle : j ≤ b.asSlice.length
+  · rw [if_pos hle] at h
+    have hle2 : j ≤ b.slc.length - b.index := by simpa [Bytes.asSlice] using hle
+    have h2 : j ≤ (trunc n b).asSlice.length := by
+      simp only [Bytes.asSlice, trunc_slc, trunc_index, List.length_drop, List.length_take]; omega
+    rw [if_pos h2]
+    have : (trunc n b).asSlice.take j = b.asSlice.take j := takeDrop_trunc _ _ _ _ hn
+    rw [this]; exact h
+  · rw [if_neg hle] at h
+    simp only [hd, Bool.false_eq_true, if_false] at h
+    cases h
+
+theorem integerPhase_trunc (b : Bytes) (ip : IntPart) (hv : Bytes.Valid b) (h : integerPhase c b = .ok ip) :
+    ip.start = b ∧ ip.byte = Bytes.at b ip.byte.index ∧ b.index ≤ ip.byte.index ∧ Bytes.Valid ip.byte ∧
+    ip.nDigits = ip.byte.index - b.index ∧
+    (∀ ch, b.slc[ip.byte.index]? = some ch → charToDigit ch c.mantissaRadix = none) ∧
+    ∀ n, ip.byte.index ≤ n →
+      integerPhase c (trunc n b) = .ok { ip with start := trunc n b, byte := trunc n ip.byte } := by
+  unfold integerPhase at h
+  simp only [prefixPhase, hf, Bool.false_and, Bool.false_eq_true, if_false, bind, Except.bind, pure, Except.pure,
+    currentCount_nf hf] at h
+  cases h8 : parse8Digits c .integer b 0 with
+  | error e => simp [h8] at h
+  | ok p8 =>
+    obtain ⟨m, b1⟩ := p8
+    obtain ⟨a1, a2, a3, a4⟩ := parse8Digits_trunc hf hd .integer 0 b b1 m hv h8
+    simp only [h8] at h
+    cases hdg : parseDigits c .integer c.mantissaRadix b1 with
+    | error e => simp [hdg] at h
+    | ok pd =>
+      obtain ⟨ds, b2⟩ := pd
+      obtain ⟨d1, d2, d3, d4⟩ := parseDigits_trunc hf hd .integer c.mantissaRadix b1 b2 ds a3 hdg
+      have dstop := parseDigits_stop hf hd .integer c.mantissaRadix b1 b2 ds a3 hdg
+      simp only [hdg] at h
+      cases hsl : sliceTo c b (b2.index - b.index) "integer get_unchecked(..b_digits)" with
+      | error e => simp [hsl] at h
+      | ok sl =>
+        simp only [hsl, Except.ok.injEq] at h
+        subst h
+        have hb1 : b1.slc = b.slc := by rw [a1]; rfl
+        refine ⟨rfl, ?_, by simp only; omega, d3, rfl, ?_, ?_⟩
+        · simp only; rw [d1, a1]; rfl
+        · intro ch hch; simp only at hch; rw [← hb1] at hch; exact dstop ch hch
+        · intro n hn
+          simp only at hn
+          unfold integerPhase
+          simp only [prefixPhase, hf, Bool.false_and, Bool.false_eq_true, if_false, bind, Except.bind, pure,
+            Except.pure, currentCount_nf hf]
+          have t1 := a4 n (by omega)
+          simp only at t1
+          rw [t1]
+          simp only
+          rw [d4 n hn]
+          simp only [trunc_index]
+          rw [sliceTo_trunc hf hd b _ n _ sl hsl (by omega)]
+
+omit hf hd in
+/-- the byte under the cursor of the truncated buffer -/
+theorem first_trunc (b : Bytes) (n : Nat) :
+    (trunc n b).first = if b.index < n then b.first else none := by
+  unfold Bytes.first
+  simp only [trunc_slc, trunc_index]
+  split
+  · next h => exact take_get_lt _ _ _ h
+  · next h => exact take_get_ge _ _ _ (by omega)
+
+theorem fractionPhase_trunc (o : POpts) (b : Bytes) (m0 : Nat) (fp : FracPart) (hv : Bytes.Valid b)
+    (h : fractionPhase c o b m0 = .ok fp) :
+    fp.byte = Bytes.at b fp.byte.index ∧ b.index ≤ fp.byte.index ∧ Bytes.Valid fp.byte ∧
+    fp.nAfterDot ≤ fp.byte.index - b.index ∧
+    ∀ n, fp.byte.index ≤ n →
+      fractionPhase c o (trunc n b) m0 = .ok { fp with byte := trunc n fp.byte } := by
+  unfold fractionPhase at h
+  by_cases hdp : b.firstIsCased o.dp = true
+  · rw [if_pos hdp] at h
+    have hfirst : b.first = some o.dp := by simpa [Bytes.firstIsCased] using hdp
+    have hlt := first_some_lt b _ hfirst
+    simp only [step_nf hd, hf, Bool.false_and, Bool.false_eq_true, if_false, bind, Except.bind, pure, Except.pure,
+      currentCount_nf hf, at_index] at h
+    have hv0 : Bytes.Valid (Bytes.at b (b.index + 1)) := by simp only [Bytes.Valid, at_index, at_slc]; omega
+    cases h8 : parse8Digits c .fraction (Bytes.at b (b.index + 1)) m0 with
+    | error e => simp [h8] at h
+    | ok p8 =>
+      obtain ⟨m, b1⟩ := p8
+      obtain ⟨a1, a2, a3, a4⟩ := parse8Digits_trunc hf hd .fraction m0 _ b1 m hv0 h8
+      simp only [h8] at h
+      cases hdg : parseDigits c .fraction c.mantissaRadix b1 with
+      | error e => simp [hdg] at h
+      | ok pd =>
+        obtain ⟨ds, b2⟩ := pd
+        obtain ⟨d1, d2, d3, d4⟩ := parseDigits_trunc hf hd .fraction c.mantissaRadix b1 b2 ds a3 hdg
+        simp only [hdg] at h
+        cases hsl : sliceTo c (Bytes.at b (b.index + 1)) (b2.index - (b.index + 1))
+            "fraction get_unchecked(..b_after_dot)" with
+        | error e => simp [hsl] at h
+        | ok sl =>
+          simp only [hsl] at h
+          cases hsc : scaleExponent c (-((b2.index - (b.index + 1) : Nat) : Int)) with
+          | error e => simp [hsc] at h
+          | ok ex =>
+            simp only [hsc, Except.ok.injEq] at h
+            subst h
+            simp only [at_index] at a2
+            refine ⟨?_, by simp only; omega, d3, by simp only; omega, ?_⟩
+            · simp only; rw [d1, a1]; rfl
+            · intro n hn
+              simp only at hn
+              unfold fractionPhase
+              have hf2 : (trunc n b).firstIsCased o.dp = true := by
+                simp only [Bytes.firstIsCased, first_trunc, show b.index < n by omega, if_true, hfirst, beq_self_eq_true]
+              rw [if_pos hf2]
+              simp only [step_nf hd, hf, Bool.false_and, Bool.false_eq_true, if_false, bind, Except.bind, pure,
+                Except.pure, currentCount_nf hf, at_index, trunc_index]
+              have t1 := a4 n (by omega)
+              simp only at t1
+              rw [← trunc_at, t1]
+              simp only
+              rw [d4 n hn]
+              simp only [trunc_index]
+              rw [sliceTo_trunc hf hd (Bytes.at b (b.index + 1)) _ n _ sl hsl (by simp only [at_index]; omega)]
+              simp only [hsc]
+  · rw [if_neg hdp] at h
+    simp only [pure, Except.pure, Except.ok.injEq] at h
+    subst h
+    refine ⟨rfl, Nat.le_refl _, hv, by simp, ?_⟩
+    intro n hn
+    unfold fractionPhase
+    have hf2 : ¬ (trunc n b).firstIsCased o.dp = true := by
+      simp only [Bytes.firstIsCased, first_trunc] at hdp ⊢
+      split
+      · exact hdp
+      · simp
+    rw [if_neg hf2]
+    rfl
 
 end
 end LexVerif.Proof.C11
